@@ -5,6 +5,8 @@ import (
 	"crypto/sha256"
 	"encoding/binary"
 	"fmt"
+	"github.com/mosaicnetworks/babble/src/proxy"
+	"github.com/mosaicnetworks/babble/src/proxy/inmem"
 	"io"
 	"math/big"
 	"os"
@@ -81,6 +83,9 @@ type SimNode struct {
 	ffDone          bool // has reset itself through fast-forward at least once
 	stalled         bool // reported an insertion error after fast-forward (C13 guard)
 	leaving         bool
+	viaProxy        bool
+	inproxy         *inmem.InmemProxy
+	txBuf           []byte // the application's submission buffer (reused)
 	armEventRun     int
 	eventRun        int
 	left            bool
@@ -397,6 +402,7 @@ func (c *Cluster) addIdentity() *SimNode {
 		lastAnchor:      -1,
 	}
 	n.id = keys.PublicKeyID(n.pubB)
+	n.viaProxy = Mix(c.seed^0x70726f78, uint64(i))%2 == 0
 	c.nodes = append(c.nodes, n)
 	c.byAddr[n.addr] = n
 	c.byPub[n.pubHex] = n
@@ -447,11 +453,18 @@ func (c *Cluster) startNode(n *SimNode, bootstrap bool) error {
 
 	n.constructing = true
 	defer func() { n.constructing = false }()
+	var app proxy.AppProxy = n.app
+	n.inproxy = nil
+	if n.viaProxy {
+		// the application is attached through babble's real in-process proxy
+		n.inproxy = inmem.NewInmemProxy(&simHandler{n.app}, conf.Logger())
+		app = n.inproxy
+	}
 	n.node = node.NewNode(conf,
 		node.NewValidator(n.key, n.moniker),
 		peers.NewPeerSet(clonePeers(n.configuredPeers)),
 		peers.NewPeerSet(clonePeers(n.genesisPeers)),
-		store, n.trans, n.app)
+		store, n.trans, app)
 	n.acceptedTxs = nil
 	n.leaving = false
 	n.lastSigs = map[int]map[string]string{}
